@@ -31,6 +31,15 @@ import plug_c17
 LEVEL = "proof"
 
 VNAME = {0: "Invariant", 1: "Covariant", 2: "Contravariant"}
+PER_SIGNATURE = 3
+
+
+def report(run, obj, signature):
+    """at most PER_SIGNATURE replays per shape signature; the rest is only counted"""
+    n = run.cov.setdefault("flagged_by_signature", {})
+    n[signature] = n.get(signature, 0) + 1
+    if n[signature] <= PER_SIGNATURE:
+        run.violation(obj, signature=signature)
 
 # rows of the verdict table asked from the verified predicate for every program: each row
 # isolates one clause of the property
@@ -172,11 +181,11 @@ def stream_arg_variance(run):
                 sw = ("use-site-variance-disabled" if dis[0] else
                       "use-site-contravariance-disabled" if (dis[1] and ans == 2) else
                       "caller-or-declaration-forbids")
-                run.violation({"kind": "arg_variance", "case": [list(dis), dvv, vcname, lname], "rng_seed": seed,
-                               "answer": VNAME.get(ans, ans), "allowed": sorted(allowed),
-                               "note": "_get_type_arg_variance answered a variance the switches / the caller's "
-                                       "choices / the declared variance do not allow"},
-                              signature="arg_variance:%s:answers-%s" % (sw, VNAME.get(ans, ans)))
+                report(run, {"kind": "arg_variance", "case": [list(dis), dvv, vcname, lname], "rng_seed": seed,
+                             "answer": VNAME.get(ans, ans), "allowed": sorted(allowed),
+                             "note": "_get_type_arg_variance answered a variance the switches / the caller's "
+                                     "choices / the declared variance do not allow"},
+                       "arg_variance:%s:answers-%s" % (sw, VNAME.get(ans, ans)))
         # correspondence with the model: observed set == candidate set
         if set(seen) != set(cand):
             bad_corr.append((case, later, sorted(map(str, seen)), cand, sorted(allowed)))
@@ -449,12 +458,12 @@ def judge_programs(run, results, replaying=False):
                 if k not in seen and len(sites) < 6:
                     seen.add(k)
                     sites.append(x)
-            run.violation({"kind": "program", "lang": lang, "gen_seed": spec["seed"], "switches": sw,
-                           "max_depth": spec.get("max_depth", 6), "path": info.get("path"), "reason": info.get("reason"),
-                           "count": info.get("count"), "reasons": info.get("reasons"),
-                           "features": sorted(feats), "origins": py.get("origins"),
-                           "projection_creating_calls": sites,
-                           "note": "generated program contains a feature its switches forbid"}, signature=sig)
+            report(run, {"kind": "program", "lang": lang, "gen_seed": spec["seed"], "switches": sw,
+                         "max_depth": spec.get("max_depth", 6), "path": info.get("path"), "reason": info.get("reason"),
+                         "count": info.get("count"), "reasons": info.get("reasons"),
+                         "features": sorted(feats), "origins": py.get("origins"),
+                         "projection_creating_calls": sites,
+                         "note": "generated program contains a feature its switches forbid"}, sig)
     return nviol
 
 
